@@ -825,6 +825,22 @@ func (e *OrdEngine) loadCell(ck cellKey, f *Fact) (AV, bool) {
 		}
 		return st, true
 	}
+	if !ok {
+		// a part of a whole that carries an inheritable tag
+		for pth := ck.path; pth != ""; {
+			i := strings.LastIndexAny(pth, ".[")
+			if i < 0 {
+				break
+			}
+			pth = pth[:i]
+			if up, ok := f.Cells[cellKey{ck.base, pth}]; ok {
+				if strings.HasPrefix(up.Tag, "~") {
+					return AV{Tag: up.Tag}, true
+				}
+				break
+			}
+		}
+	}
 	return whole, ok
 }
 
@@ -1115,14 +1131,6 @@ func (e *OrdEngine) flow(from, to *ssa.BasicBlock, f *Fact, fr *Frame, push func
 // n == len(...) (n being result #0 of the same call) the failure is normalised to success, exactly like the
 // explicit `err = nil` form handled at the phi.
 func (e *OrdEngine) eofBranch(cx *Ctx, ifi *ssa.If, truth bool, f *Fact) {
-	bo, ok := ifi.Cond.(*ssa.BinOp)
-	if !ok || (bo.Op != token.EQL && bo.Op != token.NEQ) {
-		return
-	}
-	eq := (bo.Op == token.EQL) == truth
-	if !eq {
-		return
-	}
 	isEOF := func(v ssa.Value) bool {
 		u, ok := v.(*ssa.UnOp)
 		if !ok || u.Op != token.MUL {
@@ -1131,24 +1139,63 @@ func (e *OrdEngine) eofBranch(cx *Ctx, ifi *ssa.If, truth bool, f *Fact) {
 		g, ok := u.X.(*ssa.Global)
 		return ok && g.Name() == "EOF" && g.Pkg != nil && g.Pkg.Pkg.Path() == "io"
 	}
-	for _, pair := range [][2]ssa.Value{{bo.X, bo.Y}, {bo.Y, bo.X}} {
-		errv, other := pair[0], pair[1]
-		if isEOF(other) {
-			if ev := e.errOrigin(cx, errv); ev != "" && f.Must[ev+":fail"] {
-				f.TS["eof:"+ev] = "1"
+	// fullTransfer: v (known to be `truth`) says n == len(x), n being result #0 of a call; returns that n
+	var fullTransfer func(v ssa.Value, truth bool, depth int) []*ssa.Extract
+	fullTransfer = func(v ssa.Value, truth bool, depth int) []*ssa.Extract {
+		switch x := v.(type) {
+		case *ssa.UnOp:
+			if x.Op == token.NOT {
+				return fullTransfer(x.X, !truth, depth)
 			}
-		}
-		// n == len(x) with n result #0 of a call whose failure was seen to be EOF
-		if ex, ok := errv.(*ssa.Extract); ok && ex.Index == 0 {
-			if lc, ok := other.(*ssa.Call); ok {
-				if b, ok := lc.Call.Value.(*ssa.Builtin); ok && b.Name() == "len" {
-					if ev := e.errOrigin(cx, ex); ev != "" && f.TS["eof:"+ev] == "1" && f.Must[ev+":fail"] {
-						f.note(fmt.Sprintf("normalise %s (EOF with full transfer)@%s", ev, e.P.Position(ifi.Pos())))
-						e.emit(cx, ev, "normalised", ifi, f)
-						delete(f.TS, "eof:"+ev)
+		case *ssa.BinOp:
+			if (x.Op == token.EQL) != truth || (x.Op != token.EQL && x.Op != token.NEQ) {
+				return nil
+			}
+			for _, pair := range [][2]ssa.Value{{x.X, x.Y}, {x.Y, x.X}} {
+				ex, ok := pair[0].(*ssa.Extract)
+				if !ok || ex.Index != 0 {
+					continue
+				}
+				if lc, ok := pair[1].(*ssa.Call); ok {
+					if b, ok := lc.Call.Value.(*ssa.Builtin); ok && b.Name() == "len" {
+						return []*ssa.Extract{ex}
 					}
 				}
 			}
+		case *ssa.Phi:
+			// `a && n == len(x)` materialised as a value: true only through the comparison edges
+			if !truth || depth > 2 {
+				return nil
+			}
+			var out []*ssa.Extract
+			for _, ed := range x.Edges {
+				if c, ok := ed.(*ssa.Const); ok && c.Value != nil && c.Value.Kind() == constant.Bool && !constant.BoolVal(c.Value) {
+					continue
+				}
+				sub := fullTransfer(ed, true, depth+1)
+				if sub == nil {
+					return nil
+				}
+				out = append(out, sub...)
+			}
+			return out
+		}
+		return nil
+	}
+	if bo, ok := ifi.Cond.(*ssa.BinOp); ok && (bo.Op == token.EQL) == truth && (bo.Op == token.EQL || bo.Op == token.NEQ) {
+		for _, pair := range [][2]ssa.Value{{bo.X, bo.Y}, {bo.Y, bo.X}} {
+			if isEOF(pair[1]) {
+				if ev := e.errOrigin(cx, pair[0]); ev != "" && f.Must[ev+":fail"] {
+					f.TS["eof:"+ev] = "1"
+				}
+			}
+		}
+	}
+	for _, ex := range fullTransfer(ifi.Cond, truth, 0) {
+		if ev := e.errOrigin(cx, ex); ev != "" && f.TS["eof:"+ev] == "1" && f.Must[ev+":fail"] {
+			f.note(fmt.Sprintf("normalise %s (EOF with full transfer)@%s", ev, e.P.Position(ifi.Pos())))
+			e.emit(cx, ev, "normalised", ifi, f)
+			delete(f.TS, "eof:"+ev)
 		}
 	}
 }
